@@ -250,6 +250,35 @@ def h_author_config(E, cls):
     return 'ok'
 
 
+FAILING_INPUTS = {'deep-nesting': 'x+' + '(' * 800 + 'f(k)' + ')' * 800, 'parse-error': 'x+f(k)+', 'unbalanced': '(x+f(k)', 'undefined-function': 'x+gg(k)',
+                  'division-by-zero': 'x/0+f(k)', 'unknown-suffix': '2q+x', 'fine': 'x+f(k)'}
+
+
+def h_shared_parser(E, length):
+    """the process-wide parser is shared by all graders: a call that fails in ANY way (recursion depth, parse error, evaluation error) leaves nothing
+    behind that another grader instance, with other variables, could observe when it grades a string never seen before"""
+    import mitxgraders as m
+    import mitxgraders.helpers.calc.expressions as X
+    from mitxgraders.exceptions import MITxError
+    X.PARSER.cache = {}
+    g1 = m.FormulaGrader(answers='x+f(k)', variables=['x', 'k'], user_functions={'f': lambda t: t + 1}, samples=1)
+    g2 = m.FormulaGrader(answers='y*2', variables=['y'], samples=1)
+    for step in range(length):
+        kind = E.choice('failing%d' % step, sorted(FAILING_INPUTS))
+        try:
+            g1(None, FAILING_INPUTS[kind])
+        except MITxError:
+            pass
+        E.check('shared-parser-scratch-empty-after-every-call', not X.PARSER.variables_used and not X.PARSER.functions_used and not X.PARSER.suffixes_used)
+        fresh_string = 'y+y+0*%d' % (step + 7)                 # never parsed before in this process
+        try:
+            r = g2(None, fresh_string)
+            E.check('other-grader-unaffected-by-failed-call', r['ok'] is True)
+        except MITxError as e:
+            E.check('other-grader-unaffected-by-failed-call', False)
+    return 'ok'
+
+
 def h_scopes(E):
     """the variable/function scopes handed to the evaluator are not altered, whatever the outcome"""
     from mitxgraders.helpers.calc.expressions import evaluator
@@ -339,6 +368,7 @@ def harnesses(tier):
         add(h_author_config, 'author_config', dict(cls=cls), 'construction + repeated grading')
     for cls in ('string', 'formula', 'list', 'item-base'):
         add(h_registered_defaults, 'registered_defaults', dict(cls=cls), 'kwargs / dict / empty / overriding configuration', validate=False)
+    add(h_shared_parser, 'shared_parser', dict(length=2), 'all sequences of 2 failing or fine calls (7 kinds) on one grader, each followed by a fresh string on another grader', validate=False)
     add(h_scopes, 'scopes', {}, '9 formulas incl. failing ones, symbolic variable value')
     add(h_negative_power_switch, 'negative_power_switch', {}, 'all sequences of 3 calls over 2 graders x 6 inputs', validate=False)
     return hs
